@@ -152,6 +152,9 @@ class ScriptIndex:
     def sample(self, *a, **k):
         return self.idx.pop(0)
 
+    def seed(self, *a, **k):       # tolerated: an implementation may re-seed an existing sampler
+        pass
+
 
 class RecordingSampler:
     """stands for the VoseSampler class: records the weights and seed it is given"""
@@ -165,6 +168,9 @@ class RecordingSampler:
 
     def sample(self, *a, **k):
         return self.idx.pop(0)
+
+    def seed(self, *a, **k):       # tolerated: an implementation may re-seed an existing sampler
+        pass
 
 
 @contextlib.contextmanager
@@ -1039,11 +1045,46 @@ def check_gdet(case, M):
                 failures.append({"kind": "corr", "what": "probability() is not the product of the rule weights", "detail": f"{p}: {ip} vs {float(lang[k])}"})
                 break
         stat = {"N": N, "chi2": round(chi, 1), "df": df, "p": pv}
+    # ---- (3) history on one object: init_sampling, probabilities updated IN PLACE, init_sampling again.
+    # The samplers must then be built from the CURRENT weights, and the object must behave like a freshly built
+    # grammar with the same weights and the same seed (the statement speaks of the grammar's probabilities, not of
+    # the probabilities it had when it was first prepared for sampling).
+    hist_rows = [S for S in nts if len(pg.tags[S]) >= 2 and len(set(float(v) for v in pg.tags[S].values())) >= 2]
+    if hist_rows:
+        cls = backend_class(case["backend"])
+        pgh = ProbDetGrammar(cfg, {S: dict(pg.tags[S]) for S in pg.tags})   # (a grammar holding native samplers cannot be deep-copied)
+        with impl("init_sampling(seed) before an in-place update (ProbDetGrammar)"), backend(cls):
+            pgh.init_sampling(case["seed"])
+            pgh.sample_program()
+        for S in hist_rows:                       # same multiset of weights, other assignment: still normalised
+            keys = list(pgh.tags[S].keys())
+            vals = [pgh.tags[S][k] for k in keys]
+            vals = vals[1:] + vals[:1]
+            for k, v in zip(keys, vals):
+                pgh.tags[S][k] = v
+        want_h = [[float(pgh.tags[S][P]) for P in pgh.tags[S]] for S in nts]
+        RecordingSampler.log, RecordingSampler.script = [], []
+        with impl("init_sampling(seed) after an in-place update (ProbDetGrammar)"), backend(RecordingSampler):
+            pgh.init_sampling(case["seed"] + 1)
+        if [w for w, _ in RecordingSampler.log] != want_h:
+            failures.append({"kind": "oracle", "what": "init_sampling after an in-place update of the probabilities does not build the samplers from the current weights",
+                             "detail": f"{case['dsl']} {case['request']} depth {case['depth']}: built from {[w for w, _ in RecordingSampler.log][:2]} current weights {want_h[:2]}"})
+        fresh = ProbDetGrammar(cfg, {S: dict(pgh.tags[S]) for S in pgh.tags})
+        with impl("init_sampling(seed); sample_program() after an in-place update (ProbDetGrammar)"), backend(cls):
+            pgh.init_sampling(case["seed"] + 1)
+            sh = [pgh.sample_program() for _ in range(60)]
+            fresh.init_sampling(case["seed"] + 1)
+            sf = [fresh.sample_program() for _ in range(60)]
+        if sh != sf:
+            failures.append({"kind": "oracle", "what": "after an in-place update of the probabilities and init_sampling(seed) the grammar does not sample like a fresh grammar with the same weights and seed",
+                             "detail": f"{case['dsl']} {case['request']} depth {case['depth']} backend {case['backend']}: {[str(p) for p in sh[:4]]} vs {[str(p) for p in sf[:4]]}"})
     apps = sum(1 for t in i_trees if t and len(t) > 1)
     tags = ["gdet", f"gdet.dsl.{case['dsl']}", f"gdet.weights.{case['weights']}", f"gdet.depth{case['depth']}", f"gdet.nts{min(len(nts), 12)}",
             f"gdet.tag_order.{case.get('tag_order', 'rules')}"]
     if stat:
         tags.append(f"gdet.stat.{case['backend']}")
+    if hist_rows:
+        tags.append("gdet.history.update-in-place")
     return result(case, json.dumps(["gdet", case["dsl"], case["request"], case["depth"], case["weights"], case["wseed"], case["dseed"], case["seed"], case["backend"], case.get("tag_order", "rules")]),
                   nprog >= 3 and apps >= 1, tags, failures,
                   {"dsl": case["dsl"], "request": case["request"], "depth": case["depth"], "programs": nprog, "scripted": [str(p) for p in impl_seq[:4]], "stat": stat})
